@@ -716,6 +716,13 @@ func (e *c02) pushPull(i, j int, half bool) bool {
 				e.m[x].ppResurrected[o] = true
 				e.r.Probe("pushpull-leaving-to-alive")
 			}
+			// the observer applied the member's leave through the state sync (left list)
+			// rather than through gossip: it has heard the leave all the same
+			if e.m[x].leaving && (after[name].Status == "leaving" || after[name].Status == "left") &&
+				before[name].Status != "leaving" && before[name].Status != "left" {
+				e.m[x].leaveHeard[o] = true
+				e.r.Probe("leave-heard-through-state-sync")
+			}
 		}
 	}
 	note(i, bi, ai)
